@@ -1,0 +1,288 @@
+//! Verification hooks. Compiled only with `--cfg mrecordlog_verif`; without that flag nothing
+//! in this file exists and the crate is unchanged.
+//!
+//! * an I/O event sink (thread-local): every file-system effect of `rolling::directory` is
+//!   reported here *after* it happened,
+//! * a fault plan (thread-local): the read-side I/O calls made by recovery can be made to fail,
+//! * read-only projections of the internal state,
+//! * re-exports of the record / frame layers so that they can be driven over in-memory blocks.
+use std::cell::RefCell;
+use std::io;
+
+pub use crate::block_read_write::VecBlockWriter;
+pub use crate::frame::{FrameReader, FrameWriter, ReadFrameError};
+pub use crate::recordlog::{RecordReader, RecordWriter};
+use crate::record::MultiPlexedRecord;
+use crate::Serializable;
+
+#[derive(Debug, Clone, PartialEq, Eq)]
+pub enum IoEvent {
+    /// `read_dir` finished; `files` are the numbers accepted as WAL files, in listing order.
+    ListDir { files: Vec<u64> },
+    Create { file: u64 },
+    SetLen { file: u64, len: u64 },
+    Open { file: u64 },
+    /// One block-sized `read_exact`; `ok == false` means end of file.
+    ReadBlock { file: u64, ok: bool },
+    Seek { file: u64, offset: u64 },
+    /// `write_all` on the `BufWriter`; `buffered_after` is `BufWriter::buffer().len()` after it.
+    BufWrite {
+        file: u64,
+        offset: u64,
+        bytes: Vec<u8>,
+        buffered_after: usize,
+    },
+    Flush { file: u64 },
+    Fdatasync { file: u64 },
+    DirSync,
+    Unlink { file: u64 },
+}
+
+#[derive(Debug, Clone, Copy, PartialEq, Eq, Hash)]
+pub enum FaultSite {
+    ListDir,
+    OpenFile,
+    ReadBlock,
+    Seek,
+}
+
+#[derive(Debug, Clone, Copy)]
+pub struct FaultPlan {
+    pub site: FaultSite,
+    /// 0-based index of the call at `site` that fails first.
+    pub k: usize,
+    /// `false`: only call `k` fails; `true`: call `k` and every later one at that site.
+    pub forever: bool,
+    pub kind: io::ErrorKind,
+}
+
+#[derive(Default)]
+struct State {
+    sink: Option<Vec<IoEvent>>,
+    plan: Option<FaultPlan>,
+    counts: [usize; 4],
+    struck: usize,
+}
+
+thread_local! {
+    static STATE: RefCell<State> = RefCell::new(State::default());
+}
+
+fn site_idx(site: FaultSite) -> usize {
+    match site {
+        FaultSite::ListDir => 0,
+        FaultSite::OpenFile => 1,
+        FaultSite::ReadBlock => 2,
+        FaultSite::Seek => 3,
+    }
+}
+
+/// Start (or restart) recording I/O events on this thread.
+pub fn start_recording() {
+    STATE.with(|st| st.borrow_mut().sink = Some(Vec::new()));
+}
+
+/// Take the events recorded so far (recording continues).
+pub fn take_events() -> Vec<IoEvent> {
+    STATE.with(|st| {
+        st.borrow_mut()
+            .sink
+            .as_mut()
+            .map(std::mem::take)
+            .unwrap_or_default()
+    })
+}
+
+pub fn stop_recording() {
+    STATE.with(|st| st.borrow_mut().sink = None);
+}
+
+pub(crate) fn emit(event: IoEvent) {
+    STATE.with(|st| {
+        if let Some(sink) = st.borrow_mut().sink.as_mut() {
+            sink.push(event);
+        }
+    });
+}
+
+pub(crate) fn recording() -> bool {
+    STATE.with(|st| st.borrow().sink.is_some())
+}
+
+/// Install a fault plan (or remove it) and reset the per-site call counters.
+pub fn set_fault_plan(plan: Option<FaultPlan>) {
+    STATE.with(|st| {
+        let mut st = st.borrow_mut();
+        st.plan = plan;
+        st.counts = [0; 4];
+        st.struck = 0;
+    });
+}
+
+/// Number of calls seen at each site (ListDir, OpenFile, ReadBlock, Seek) since the last
+/// `set_fault_plan`, and how many of them were made to fail.
+pub fn fault_counters() -> ([usize; 4], usize) {
+    STATE.with(|st| {
+        let st = st.borrow();
+        (st.counts, st.struck)
+    })
+}
+
+pub(crate) fn maybe_fail(site: FaultSite) -> io::Result<()> {
+    STATE.with(|st| {
+        let mut st = st.borrow_mut();
+        let idx = site_idx(site);
+        let count = st.counts[idx];
+        st.counts[idx] += 1;
+        if let Some(plan) = st.plan {
+            if plan.site == site && (count == plan.k || (plan.forever && count > plan.k)) {
+                st.struck += 1;
+                return Err(io::Error::new(plan.kind, "mrecordlog_verif injected fault"));
+            }
+        }
+        Ok(())
+    })
+}
+
+/// Projection of one in-memory queue.
+#[derive(Debug, Clone, PartialEq, Eq)]
+pub struct QueueSnapshot {
+    pub name: String,
+    pub start_position: u64,
+    /// (position, payload length, file number handle held by this record if any)
+    pub records: Vec<(u64, usize, Option<u64>)>,
+}
+
+/// Projection of the whole log.
+#[derive(Debug, Clone, PartialEq, Eq)]
+pub struct Snapshot {
+    pub queues: Vec<QueueSnapshot>,
+    /// (file number, number of handles in existence including the tracker's own)
+    pub files: Vec<(u64, usize)>,
+    pub writer_file: u64,
+    pub writer_offset: usize,
+    pub writer_buffered: usize,
+}
+
+/// An already serialized WAL entry, written as is.
+pub struct RawEntry<'a>(pub &'a [u8]);
+
+impl<'a> Serializable<'a> for RawEntry<'a> {
+    fn serialize(&self, buffer: &mut Vec<u8>) {
+        buffer.clear();
+        buffer.extend_from_slice(self.0);
+    }
+
+    fn deserialize(buffer: &'a [u8]) -> Option<Self> {
+        Some(RawEntry(buffer))
+    }
+}
+
+/// Public mirror of the crate-private WAL entry type.
+#[derive(Debug, Clone, PartialEq, Eq)]
+pub enum Entry {
+    Append {
+        queue: String,
+        position: u64,
+        records: Vec<(u64, Vec<u8>)>,
+    },
+    Truncate {
+        queue: String,
+        position: u64,
+    },
+    Position {
+        queue: String,
+        position: u64,
+    },
+    Delete {
+        queue: String,
+        position: u64,
+    },
+}
+
+pub fn encode_entry(entry: &Entry) -> Vec<u8> {
+    let mut out = Vec::new();
+    match entry {
+        Entry::Append {
+            queue,
+            position,
+            records,
+        } => {
+            let mut buffer = Vec::new();
+            for (record_position, payload) in records {
+                buffer.extend_from_slice(&record_position.to_le_bytes());
+                buffer.extend_from_slice(&(payload.len() as u32).to_le_bytes());
+                buffer.extend_from_slice(payload);
+            }
+            let records = crate::record::MultiRecord::new_unchecked(&buffer);
+            MultiPlexedRecord::AppendRecords {
+                queue,
+                position: *position,
+                records,
+            }
+            .serialize(&mut out);
+        }
+        Entry::Truncate { queue, position } => MultiPlexedRecord::Truncate {
+            queue,
+            truncate_range: ..=*position,
+        }
+        .serialize(&mut out),
+        Entry::Position { queue, position } => MultiPlexedRecord::RecordPosition {
+            queue,
+            position: *position,
+        }
+        .serialize(&mut out),
+        Entry::Delete { queue, position } => MultiPlexedRecord::DeleteQueue {
+            queue,
+            position: *position,
+        }
+        .serialize(&mut out),
+    }
+    out
+}
+
+pub fn decode_entry(bytes: &[u8]) -> Option<Entry> {
+    let record = MultiPlexedRecord::deserialize(bytes)?;
+    Some(match record {
+        MultiPlexedRecord::AppendRecords {
+            queue,
+            position,
+            records,
+        } => {
+            let mut decoded = Vec::new();
+            for record in records {
+                let (record_position, payload) = record.ok()?;
+                decoded.push((record_position, payload.to_vec()));
+            }
+            Entry::Append {
+                queue: queue.to_string(),
+                position,
+                records: decoded,
+            }
+        }
+        MultiPlexedRecord::Truncate {
+            queue,
+            truncate_range,
+        } => Entry::Truncate {
+            queue: queue.to_string(),
+            position: truncate_range.end,
+        },
+        MultiPlexedRecord::RecordPosition { queue, position } => Entry::Position {
+            queue: queue.to_string(),
+            position,
+        },
+        MultiPlexedRecord::DeleteQueue { queue, position } => Entry::Delete {
+            queue: queue.to_string(),
+            position,
+        },
+    })
+}
+
+/// Geometry the crate was compiled with: (block bytes, frame header bytes, blocks per file).
+pub fn geometry() -> (usize, usize, usize) {
+    (
+        crate::BLOCK_NUM_BYTES,
+        crate::frame::HEADER_LEN,
+        crate::rolling::VERIF_FILE_NUM_BYTES / crate::BLOCK_NUM_BYTES,
+    )
+}
